@@ -1,5 +1,6 @@
 import Whv.Driver.Util
 import Whv.Model.Supervisor
+import Std.Data.HashSet
 /-!
 Driver family `supervisor` (C18).
 
@@ -150,6 +151,222 @@ def simOp (P : Params) (fixed : Bool) (s : Sys) (op : String) (fs : List String)
     pure { sys := { s with tree := modify s.tree dn fun n => { n with exited := true } } }
   | _ => throw s!"unknown op {op}"
 
+def fixedModel : Bool := true
+
+/-! ## Part (ii): traces of the real supervisor
+
+* `tr <id> name=<scenario> init=<ns> max=<ns>`
+* `ev <id> k=<n> t=<µs> e=<kind> iid=<i> dn=<dn> ...` with kinds
+  `enter`, `run names= res=ok|err|panic`, `sig s=0|1 res=ok|panic`, `ctxdone`, `exit how=nil|ctx|other panic=0|1`,
+  `settled ok= why=`, `cancelreq`, `stopped ok=`, `quiesced`, `fin`
+* `end <id>`
+
+Two things happen per trace.  (a) The Spec clauses of C18 are evaluated on the event log itself (no model):
+`two-instances-live`, `done-restarted`, `restart-before-backoff`, `group-not-cancelled`, `not-restarted`,
+`not-stopped`, `start-after-stop`.  (b) Acceptance: the set of model states compatible with the log so far is
+carried along; between two logged events the processor may have taken any number of hidden steps
+(`died`, `gc`, and `kill` once the harness has cancelled the supervisor context).  An event that no state
+allows is a `diff`.
+-/
+namespace Trace
+
+/-- what the Spec evaluation remembers about the latest instance of a dn -/
+structure Rec where
+  iid : Nat
+  dn : DN
+  exited : Bool := false
+  how : String := ""
+  tExit : Nat := 0
+  sigDone : Bool := false
+  sawCtx : Bool := false
+  ancEntered : Bool := false
+deriving Repr
+
+structure St where
+  id : String := ""
+  name : String := ""
+  P : Params := {}
+  worlds : List Sys := []
+  cancelReq : Bool := false
+  capped : Bool := false
+  recs : List Rec := []               -- every instance, newest first
+  groups : List (DN × List String) := []   -- (parent dn, group) of the parent's current incarnation
+  oblig : List (Nat × String) := []   -- instance that must still see its context cancelled, because of whom
+  settled : Bool := false
+  quiesced : Bool := false
+  verdict : Option String := none
+  events : Nat := 0
+  maxWorlds : Nat := 0
+
+def setV (st : St) (v : String) : St :=
+  match st.verdict with
+  | some w => if w.startsWith "diff" && v.startsWith "spec" then { st with verdict := some v } else st
+  | none => { st with verdict := some v }
+
+def worldCap : Nat := 3000
+
+def dedup (l : List Sys) : List Sys :=
+  (l.foldl (fun (acc : Std.HashSet Sys × List Sys) s => if acc.1.contains s then acc else (acc.1.insert s, s :: acc.2)) (({} : Std.HashSet Sys), [])).2.reverse
+
+def hiddenSucc (P : Params) (cancelReq : Bool) (s : Sys) : List Sys :=
+  if s.killed then [] else
+  let dieds := (s.pend.filter fun r => match r with | .died _ _ => true | _ => false).eraseDups
+  let a := dieds.filterMap fun r => match r with
+    | .died d e => step P fixedModel s (.died d e)
+    | _ => none
+  let b := if (can fixedModel s.tree).isEmpty then [] else (step P fixedModel s .gc).toList
+  let c := if cancelReq then (step P fixedModel s .kill).toList else []
+  a ++ b ++ c
+
+/-- all states reachable by hidden processor steps (bounded by `worldCap`; `true` = bound hit) -/
+partial def closure (P : Params) (cancelReq : Bool) (front : List Sys) (seen : Std.HashSet Sys) (acc : List Sys) : List Sys × Bool :=
+  match front with
+  | [] => (acc, false)
+  | s :: rest =>
+    if seen.size > worldCap then (acc, true) else
+    let succ := (hiddenSucc P cancelReq s).filter fun x => !seen.contains x
+    let succ := dedup succ
+    let seen := succ.foldl (fun h x => h.insert x) seen
+    closure P cancelReq (rest ++ succ) seen (acc ++ succ)
+
+/-- the observable event applied to one model state (`none` = this state does not allow it) -/
+def applyEv (P : Params) (s : Sys) (kind : String) (iid : Nat) (dn : DN) (fs : List String) : Option Sys :=
+  let inst := s.live.find? (fun i => i.iid = iid)
+  match kind with
+  | "enter" =>
+    -- processSchedule ran at some point before (it commutes with everything but the kill, which is why a
+    -- request pending at the kill may still be observed starting)
+    if Req.sched dn ∉ s.pend then none else
+    match find s.tree dn with
+    | none => none
+    | some n => some { s with pend := s.pend.erase (.sched dn), live := s.live ++ [{ iid := iid, dn := dn, inc := n.inc }], nextIid := iid + 1 }
+  | "run" =>
+    match inst with
+    | none => none
+    | some i =>
+      let names := parseNames ((kv fs "names").getD "-")
+      let res := (kv fs "res").getD ""
+      match runGroup P s.tree i.dn names s.nextInc with
+      | .ok (some t) => if res = "ok" then some { s with tree := t, pend := s.pend ++ names.map (fun nm => Req.sched (i.dn ++ [nm])), nextInc := s.nextInc + 1 } else none
+      | .ok none => if res = "err" then some s else none
+      | .error _ => if res = "panic" then some s else none
+  | "sig" =>
+    match inst with
+    | none => none
+    | some i =>
+      let sg := if kvNat fs "s" == some 1 then Signal.done else Signal.healthy
+      let res := (kv fs "res").getD ""
+      match signal P s.tree i.dn sg with
+      | .ok t => if res = "ok" then some { s with tree := t } else none
+      | .error _ => if res = "panic" then some s else none
+  | "ctxdone" =>
+    match inst with
+    | none => none
+    | some i => if instCancelled s.tree i then some s else none
+  | "exit" =>
+    match inst with
+    | none => none
+    | some i =>
+      match (kv fs "how") >>= parseKind with
+      | none => none
+      | some e => some { s with live := s.live.erase i, pend := s.pend ++ [.died i.dn e] }
+  | _ => some s
+
+def isPrefix (p d : DN) : Bool := p.isPrefixOf d
+def properPrefix (p d : DN) : Bool := p.isPrefixOf d && p.length < d.length
+
+def latest (st : St) (dn : DN) : Option Rec := st.recs.find? (fun r => r.dn = dn)
+def updRec (st : St) (iid : Nat) (f : Rec → Rec) : St := { st with recs := st.recs.map fun r => if r.iid = iid then f r else r }
+
+/-- an exit the supervisor must treat as a failure whatever the state of the contexts:
+an error that is not a context error, a panic, or a plain return of a service that has not signalled Done -/
+def certainDeath (r : Rec) : Bool := r.exited && (r.how = "other" || (r.how = "nil" && !r.sigDone))
+
+/-- Spec clauses evaluated on the log alone. -/
+def specEv (st : St) (kind : String) (iid : Nat) (dn : DN) (t : Nat) (fs : List String) : St :=
+  let id := st.id
+  match kind with
+  | "enter" =>
+    let st := if st.quiesced then setV st s!"spec {id} start-after-stop {showDN dn} was started after the supervisor context had been cancelled and everything had stopped" else st
+    let st := match latest st dn with
+      | none => st
+      | some p =>
+        if !p.exited then
+          setV st s!"spec {id} two-instances-live {showDN dn} started (instance {iid}) while instance {p.iid} of the same service had not returned (scenario {st.name})"
+        else if p.sigDone && p.how = "nil" && !p.ancEntered then
+          setV st s!"spec {id} done-restarted {showDN dn} had signalled Done and returned nil, yet was started again without any ancestor restarting"
+        else if certainDeath p && !p.ancEntered && (t + 1000) * 1000 < p.tExit * 1000 + st.P.initial / 2 then
+          setV st s!"spec {id} restart-before-backoff {showDN dn} died at {p.tExit}us and was started again at {t}us, sooner than half the initial back-off interval ({st.P.initial}ns)"
+        else st
+    -- a restarting ancestor is the only other legitimate reason for a restart
+    let recs := st.recs.map fun r => if properPrefix dn r.dn then { r with ancEntered := true } else r
+    { st with recs := { iid := iid, dn := dn } :: recs, groups := st.groups.filter (fun g => g.1 ≠ dn) }
+  | "run" =>
+    if (kv fs "res") == some "ok" then { st with groups := st.groups ++ [(dn, parseNames ((kv fs "names").getD "-"))] } else st
+  | "sig" =>
+    if (kv fs "res") == some "ok" && kvNat fs "s" == some 1 then updRec st iid fun r => { r with sigDone := true } else st
+  | "ctxdone" =>
+    { updRec st iid (fun r => { r with sawCtx := true }) with oblig := st.oblig.filter (·.1 ≠ iid) }
+  | "exit" =>
+    let st := { updRec st iid (fun r => { r with exited := true, how := (kv fs "how").getD "?", tExit := t }) with oblig := st.oblig.filter (·.1 ≠ iid) }
+    match st.recs.find? (fun r => r.iid = iid) with
+    | none => st
+    | some me =>
+      if !certainDeath me || st.cancelReq then st else
+      -- "it and the members of its group are cancelled": everything running below it, and below its group siblings
+      let sibs : List DN := match dn.getLast? with
+        | none => []
+        | some nm =>
+          let par := dn.dropLast
+          match st.groups.find? (fun g => g.1 = par && g.2.contains nm) with
+          | some g => (g.2.filter (· ≠ nm)).map fun s => par ++ [s]
+          | none => []
+      let affected := st.recs.filter fun r => !r.exited && !r.sawCtx && r.iid ≠ iid &&
+        (properPrefix dn r.dn || sibs.any (fun s => isPrefix s r.dn))
+      { st with oblig := st.oblig ++ affected.map fun r => (r.iid, showDN dn) }
+  | "settled" =>
+    let st := { st with settled := true }
+    if (kv fs "ok") != some "1" then
+      setV st s!"spec {id} not-restarted the services did not come back to their running configuration within the deadline: {(kv fs "why").getD "?"} (scenario {st.name})"
+    else match st.oblig with
+      | (i, who) :: _ =>
+        let d := match st.recs.find? (fun r => r.iid = i) with | some r => showDN r.dn | none => "?"
+        setV st s!"spec {id} group-not-cancelled {who} died but the context of {d} (instance {i}), which belongs to it or to its group, was never cancelled"
+      | [] => st
+  | "cancelreq" => { st with cancelReq := true }
+  | "stopped" =>
+    if (kv fs "ok") != some "1" then setV st s!"spec {id} not-stopped services were still running long after the supervisor context was cancelled ({(kv fs "live").getD "?"} left)" else st
+  | "quiesced" => { st with quiesced := true }
+  | _ => st
+
+def traceLine (st : St) (op : String) (id : String) (fs : List String) : St × List String :=
+  if op = "tr" then
+    let P : Params := { initial := (kvNat fs "init").getD 0, max := (kvNat fs "max").getD 0 }
+    ({ id := id, name := (kv fs "name").getD "?", P := P, worlds := [init P] }, [])
+  else if op = "end" then
+    (st, [match st.verdict with | some v => v | none => s!"ok {id}"])
+  else
+    let kind := (kv fs "e").getD "?"
+    let iid := (kvNat fs "iid").getD 0
+    let dn := ((kv fs "dn") >>= parseDN).getD []
+    let t := (kvNat fs "t").getD 0
+    let st := { st with events := st.events + 1 }
+    let st := specEv st kind iid dn t fs
+    -- acceptance
+    if st.capped || st.worlds.isEmpty then (st, []) else
+    let cr := st.cancelReq
+    let seen := st.worlds.foldl (fun (h : Std.HashSet Sys) x => h.insert x) {}
+    let (more, capped) := closure st.P cr st.worlds seen []
+    if capped then ({ st with capped := true }, []) else
+    let all := st.worlds ++ more
+    let next := dedup (all.filterMap fun s => applyEv st.P s kind iid dn fs)
+    let st := { st with worlds := next, maxWorlds := max st.maxWorlds all.length }
+    if next.isEmpty then
+      (setV st s!"diff {id} trace rejected by the model at event {(kv fs "k").getD "?"} ({kind} iid={iid} dn={showDN dn} {fs.drop 5}): none of {all.length} model states allows it (scenario {st.name})", [])
+    else (st, [])
+
+end Trace
+
 structure CaseSt where
   id : String := ""
   P : Params := {}
@@ -165,8 +382,11 @@ structure St where
   ops : Nat := 0
   gcResets : Nat := 0
   panics : Nat := 0
-
-def fixedModel : Bool := true
+  tr : Trace.St := {}
+  traces : Nat := 0
+  trEvents : Nat := 0
+  trCapped : Nat := 0
+  trMaxWorlds : Nat := 0
 
 def setVerdict (c : CaseSt) (v : String) : CaseSt :=
   match c.verdict with
@@ -223,11 +443,19 @@ def simLine (st : St) (op : String) (id : String) (fs : List String) (line : Str
 
 def step (st : St) (line : String) : St × List String :=
   match fields line with
-  | op :: id :: fs => simLine st op id fs line
+  | op :: id :: fs =>
+    if op = "tr" || op = "ev" || (op = "end" && id.startsWith "tr") then
+      let (t, outs) := Trace.traceLine st.tr op id fs
+      let st := { st with tr := t }
+      let st := if op = "end" then { st with traces := st.traces + 1, trEvents := st.trEvents + t.events,
+                                             trCapped := st.trCapped + (if t.capped then 1 else 0), trMaxWorlds := max st.trMaxWorlds t.maxWorlds } else st
+      (st, outs)
+    else simLine st op id fs line
   | _ => (st, [])
 
 def fin (st : St) : List String :=
-  [s!"stat sim_cases {st.cases}", s!"stat sim_ops {st.ops}", s!"stat sim_gc_resets {st.gcResets}", s!"stat sim_panics {st.panics}"]
+  [s!"stat sim_cases {st.cases}", s!"stat sim_ops {st.ops}", s!"stat sim_gc_resets {st.gcResets}", s!"stat sim_panics {st.panics}",
+   s!"stat traces {st.traces}", s!"stat trace_events {st.trEvents}", s!"stat trace_search_capped {st.trCapped}", s!"stat trace_max_model_states {st.trMaxWorlds}"]
 
 def run (h : IO.FS.Stream) : IO Unit := loop h ({} : St) step fin
 
